@@ -8,7 +8,7 @@ _NOTE = ("the judge is the monitor automaton coq/Core/ShimMonitor.v over the int
 PROPS = {
     "C04": dict(engines=["core"], props_file="Props/C04.v", checkers=["Oracles/CoreC04.v"],
                 checker_fns={"core": "Oracles.CoreC04:c04_check_all"},
-                variants=["", "gang"], coq_scan=["Core/ShimMonitor.v", "Core/ShimMonitorProofs.v", "Core/Announce.v", "Core/Guard.v", "Core/Proj.v", "Oracles/CoreC04.v", "Props/C04.v", "Core/Obs.v", "Base"], level="proof",
+                variants=["gangdeep", "preemptdeep", "gang", ""], coq_scan=["Core/ShimMonitor.v", "Core/ShimMonitorProofs.v", "Core/Announce.v", "Core/Guard.v", "Core/Proj.v", "Oracles/CoreC04.v", "Props/C04.v", "Core/Obs.v", "Base"], level="proof",
                 assumptions=["the harness is synchronous: a request is processed completely (IEnd) before the next one starts, so 'exactly one answer' means one answer inside the request",
                              "allocation keys are unique per partition (pod UIDs); two live asks with the same key under different applications are not tracked",
                              "a release with TIMEOUT that the core did not announce ends a bound allocation but not an outstanding ask (removeAllocation)"],
